@@ -1,9 +1,21 @@
 #!/bin/sh
 # Builds the whole Coq development (full .vo build, never -vos).  Offline.
+# Uses make -k: a file that does not compile is reported here and makes the checks that depend
+# on it fail (each check rebuilds its own dependency closure), without blocking the others.
 cd "$(dirname "$0")" || exit 2
 /venv/bin/python - <<'PY' || exit 1
+import subprocess, sys
 from harness import core
-ok, log = core.ensure_build(timeout=7000)
-print(log[-3000:])
-raise SystemExit(0 if ok else 1)
+core.WORK.mkdir(exist_ok=True)
+core.gen_coqproject()
+r = subprocess.run(["coq_makefile", "-f", "_CoqProject", "-o", "Makefile"], cwd=core.COQ, capture_output=True, text=True)
+if r.returncode != 0:
+    print(r.stdout, r.stderr); sys.exit(1)
+r = subprocess.run(["timeout", "7000", "make", "-k", "-j%d" % core.NPROC], cwd=core.COQ, capture_output=True, text=True)
+print(r.stdout[-1500:])
+if r.returncode != 0:
+    print("SETUP WARNING: some files did not compile:\n" + r.stderr[-3000:])
+vo = len(list(core.COQ.rglob("*.vo"))); v = len(list(core.COQ.rglob("*.v")))
+print("compiled %d of %d files" % (vo, v))
+sys.exit(0 if vo > 0 else 1)
 PY
